@@ -36,17 +36,20 @@ CHECKS = {
              "Broker.tla enabled at every point of every history; TLC checks ValueFailsLoudly, RebalanceNeedsQuotes and the "
              "action property RebalanceAtomic; every model state is replayed into the real Broker with outcome classes "
              "{ok, broke, error} compared, and NLV queried on a copy after every operation must fail exactly when an open "
-             "position has no liquidation quote.",
-        design="5 C13", technique="TLA+ spec with fault actions model-checked with TLC; every model state replayed into the "
-                                  "real Broker", note=BROKER_NOTE),
+             "position has no liquidation quote (and be a number otherwise); a second model without VIEW replays every PATH "
+             "of three operations, and simulation-mode behaviours add longer ones.",
+        design="5 C13", technique="TLA+ spec with fault actions model-checked with TLC; every model state, every path of "
+                                  "three operations and simulated behaviours replayed into the real Broker", note=BROKER_NOTE),
 }
 
 CHECKS["C03"] = dict(
     text="TLC checks TargetReached / FrictionlessNlv / NoSpuriousFailure (invariants) and SecondRebalanceIdle (action property) "
          "on Broker.tla with exact rational arithmetic: after every rebalance, from every prior holding the bounded model can "
          "reach, position x multiplier x execution-side quote = w x pre-trade NLV for targeted contracts, untargeted holdings are "
-         "closed, lot targets are reached exactly. Every model state is replayed into the real Broker and positions, trades, "
-         "pre/post NLV are compared with the exact rationals.",
+         "closed, lot targets are reached exactly. Every model state (and simulated longer behaviours) is replayed into the real Broker and positions, "
+         "trades, pre/post NLV are compared with the exact rationals; an Env.tla model replays actions of portfolio spaces "
+         "declared in numbers of contracts (Box and Discrete) into a real TradingEnv: measure, fractional flag and the "
+         "position reached are compared.",
     design="5 C03", technique="TLA+ spec with exact rationals (Rat.tla) model-checked with TLC; every model state replayed "
                               "into the real Broker", note=BROKER_NOTE)
 CHECKS["C12"] = dict(
@@ -99,7 +102,8 @@ CHECKS["C14"] = dict(
     text="TLC explores every interleaving of quotes, discontinuations and clock moves over assets, futures and a futures chain "
          "(Exchange.tla) checking LastQuoteWins, DeadShowsNoPrice, ChainAlias, ExecSide and the action properties Isolation, "
          "DeadStaysDead, HistoryAppendOnly, LeadMonotone; every model state is replayed into a real Exchange and the books seen "
-         "through every key (contract, symbol string, chain) are compared; in the other direction random executions recorded "
+         "through every key (contract, symbol string, chain; a second world has a three-contract chain addressed by its "
+         "lead and, through a chain built with month=1, one contract down the curve) are compared; in the other direction random executions recorded "
          "from the real Exchange are validated line by line by TLC against ExchangeTrace.tla (every line consumed, verdict names "
          "the failing clause).",
     design="5 C14", technique="TLA+ spec model-checked with TLC; spec behaviours replayed into the real Exchange and recorded "
@@ -160,10 +164,13 @@ CHECKS["C18"] = dict(
          "days, differing ranges (including ranges ending or starting on a real NYSE holiday), windows, strides and bounds and "
          "checks StepsDef, NoStepBeforeWindow, ObsShape; every configuration is instantiated as DataFrames whose cells encode "
          "(day, column), the real TradingEnvXY is run with none / z-score / power transformers, and every observation is compared "
-         "with the rows of the published table env.X selected by the model, every quote and rate with the given tables.",
+         "with the rows of the published table env.X selected by the model, every quote and rate with the given tables; "
+         "further instantiations: episodes in later folds with long strided windows, two exchange calendars in one process, "
+         "and intraday tables (index numbers are ranks of stamps: prices on the hour, features 30 s later inside a 60 s "
+         "latency).",
     design="5 C18", technique="TLA+ spec of the index logic model-checked with TLC; every configuration replayed into the real "
                               "TradingEnvXY", note="Trusted base: TLC, harness, pandas_market_calendars for the holiday dates; the "
-                              "published table env.X is the oracle for values; daily tables with at most 1-2 missing days.")
+                              "published table env.X is the oracle for values; daily tables with at most 1-2 missing days, one intraday layout.")
 CHECKS["C02"] = dict(
     text="2-safety by self-composition: NoLookahead.tla runs two instances of Env.tla in lock-step on streams that agree on all "
          "events stamped <= cut (arbitrary extras, overriding quotes and insertion positions afterwards) and TLC checks PrefixEqual "
